@@ -23,12 +23,25 @@ const char *mc_rule = "choice-tree DFS: all strings over {00,01,02,1F,20,DE,DF,E
 static data_decoder_t decoders[] = { mpt_decode_cobs, mpt_decode_cobs_r, mpt_decode_cobs_zpe, mpt_decode_cobs_zpe_r, mpt_decode_command };
 static const uint8_t ALPHA[] = {0x00, 0x01, 0x02, 0x1F, 0x20, 0xDE, 0xDF, 0xE0, 0xE1, 0xFE, 0xFF};
 
-struct Counters { uint64_t exec, nontrivial, resumed, retry, split, errors, delivered, peeks, malformed_refused; };
+struct Counters { uint64_t exec, nontrivial, resumed, retry, split, errors, delivered, peeks, malformed_refused, hole_seam, hole_delivered; };
 
 // run the decoder on the truth buffer T presented as one or two separately allocated blocks
-static int call_decoder(int f, decode_state &st, Bytes &T, size_t cut, size_t cnt)
+// hole: additionally put EMPTY iovecs (iov_len 0) into the vector: between the two blocks, or (single block) in front of and behind it
+static int call_decoder(int f, decode_state &st, Bytes &T, size_t cut, size_t cnt, bool hole = false)
 {
 	size_t n = T.size();
+	if (hole) {
+		bool two = cut && cut < n; size_t la = two ? cut : n;
+		uint8_t *a = (uint8_t *) malloc(la ? la : 1), *b = (uint8_t *) malloc(n - la ? n - la : 1), *e = (uint8_t *) malloc(1);
+		memcpy(a, T.data(), la); memcpy(b, T.data() + la, n - la);
+		struct iovec v[3]; int ret;
+		if (two) { v[0] = {a, la}; v[1] = {e, 0}; v[2] = {b, n - la}; }
+		else { v[0] = {e, 0}; v[1] = {a, la}; v[2] = {e, 0}; }
+		ret = LIB(decoders[f](&st, v, 3));
+		memcpy(T.data(), a, la); memcpy(T.data() + la, b, n - la);
+		free(a); free(b); free(e);
+		return ret;
+	}
 	if (cut == 0 || cut >= n) {
 		uint8_t *a = (uint8_t *) malloc(n ? n : 1); memcpy(a, T.data(), n);
 		struct iovec v = {a, n};
@@ -45,7 +58,7 @@ static int call_decoder(int f, decode_state &st, Bytes &T, size_t cut, size_t cn
 	return ret;
 }
 
-static void body(Run &r, Counters &c, int f, int L, Ctx &x, size_t gap = 0)
+static void body(Run &r, Counters &c, int f, int L, Ctx &x, size_t gap = 0, bool hole = false)
 {
 	Bytes in; std::vector<size_t> chunks; size_t cut = 0; uint64_t mask = 0; size_t len;
 	if (L > 0) {
@@ -80,8 +93,8 @@ static void body(Run &r, Counters &c, int f, int L, Ctx &x, size_t gap = 0)
 		cut = ci ? marks[ci - 1] : 0; if (cut >= len) cut = 0;
 	}
 	bool peeking = x.choose(2) != 0;
-	std::string sc = std::string(ref::framing_name[f]) + (cut ? "|two-iovec" : "|one-iovec") + (peeking ? "+peek" : "");
-	std::string desc = fmt("%s input {%s} arrival %zu chunk(s) mask=%llu cut=%zu peek=%d scratch=%zu", ref::framing_name[f], ref::hexs(in).c_str(), chunks.size(), (unsigned long long) mask, cut, (int) peeking, gap);
+	std::string sc = std::string(ref::framing_name[f]) + (cut ? "|two-iovec" : "|one-iovec") + (hole ? "+empty-iovec" : "") + (peeking ? "+peek" : "");
+	std::string desc = fmt("%s input {%s} arrival %zu chunk(s) mask=%llu cut=%zu peek=%d scratch=%zu%s", ref::framing_name[f], ref::hexs(in).c_str(), chunks.size(), (unsigned long long) mask, cut, (int) peeking, gap, hole ? " empty-iovec(s) at the seam / around the single block" : "");
 	r.hint((sc + "|decode").c_str());
 	r.note("%s", desc.c_str());
 
@@ -131,7 +144,7 @@ static void body(Run &r, Counters &c, int f, int L, Ctx &x, size_t gap = 0)
 				}
 			}
 			Bytes before = T;
-			int ret = call_decoder(f, st, T, seam, 1);
+			int ret = call_decoder(f, st, T, seam, 1, hole);
 			++calls;
 			if (asan_error()) { fail("memory", fmt("AddressSanitizer report in call %d", calls)); break; }
 			// writes only below the new input position
@@ -191,6 +204,7 @@ static void body(Run &r, Counters &c, int f, int L, Ctx &x, size_t gap = 0)
 	if (chunks.size() > 1) resumed = true;
 	if (resumed) ++c.resumed; if (retries) ++c.retry; if (cut) ++c.split;
 	if (resumed || retries || cut || hard) ++c.nontrivial;
+	if (hole && cut) ++c.hole_seam; if (hole && delivered) ++c.hole_delivered;
 	if (r.samples.size() < 2 && delivered && chunks.size() > 1 && cut) r.sample(desc + fmt(" -> %zu message(s), %d calls", delivered, calls));
 }
 
@@ -200,24 +214,28 @@ void mc_jobs(Tier t, std::vector<std::string> &jobs)
 	// job = decoder : input length : first byte of the input [: scratch bytes in front of the input]
 	for (int f = 0; f < 5; ++f) for (int len = 1; len <= Lq(t); ++len) for (size_t a = 0; a < sizeof ALPHA; ++a) jobs.push_back(fmt("%d:%d:%zu", f, len, a));
 	for (int f = 0; f < 5; ++f) for (size_t g : {1, 16}) for (int len = 1; len < Lq(t); ++len) for (size_t a = 0; a < sizeof ALPHA; ++a) jobs.push_back(fmt("%d:%d:%zu:%zu", f, len, a, g));
+	// family A with empty iovecs in the vector handed to the decoder: job = decoder : length : first byte : 0 : 1
+	for (int f = 0; f < 5; ++f) for (int len = 1; len <= Lq(t); ++len) for (size_t a = 0; a < sizeof ALPHA; ++a) jobs.push_back(fmt("%d:%d:%zu:0:1", f, len, a));
 	// family B (long single blocks around every code boundary): job = decoder : -(code index+1) : 0
 	for (int f = 0; f < 4; ++f) for (int ci = 0; ci < 9; ++ci) jobs.push_back(fmt("%d:%d:0", f, -(ci + 1)));
 }
 static void run(Run &r, const std::string &job, const Vec *rep)
 {
-	int f, len; size_t a, g = 0;
-	if (sscanf(job.c_str(), "%d:%d:%zu:%zu", &f, &len, &a, &g) < 3) return;
+	int f, len; size_t a, g = 0, h = 0;
+	if (sscanf(job.c_str(), "%d:%d:%zu:%zu:%zu", &f, &len, &a, &g, &h) < 3) return;
 	int L = Lq(r.tier);
 	Counters c = {};
 	if (len < 0) L = len;
-	if (rep) { dfs_replay(r, [&](Ctx &x) { body(r, c, f, L, x, g); }, *rep); return; }
+	if (rep) { dfs_replay(r, [&](Ctx &x) { body(r, c, f, L, x, g, h != 0); }, *rep); return; }
 	for (const char *k : {"nontrivial", "resumed", "retry", "two_iovec", "errors", "delivered"}) r.require(k);
+	if (h && len > 1) { r.require("empty_iovec_at_seam"); r.require("empty_iovec_delivered"); }
 	Vec root{(uint64_t) len - 1, (uint64_t) a};
 	if (len < 0) root.clear();
-	dfs(r, [&](Ctx &x) { body(r, c, f, L, x, g); }, -1, root);
+	dfs(r, [&](Ctx &x) { body(r, c, f, L, x, g, h != 0); }, -1, root);
 	r.states += c.exec;
 	r.count("nontrivial", c.nontrivial); r.count("resumed", c.resumed); r.count("retry", c.retry); r.count("two_iovec", c.split);
 	r.count("errors", c.errors); r.count("delivered", c.delivered); r.count("peeks", c.peeks); r.count("malformed_refused", c.malformed_refused);
+	if (h) { r.count("empty_iovec_at_seam", c.hole_seam); r.count("empty_iovec_delivered", c.hole_delivered); }
 }
 void mc_explore(Run &r, const std::string &job) { run(r, job, 0); }
 void mc_replay(Run &r, const std::string &job, const Vec &v) { run(r, job, &v); }
